@@ -150,12 +150,16 @@ class ZipProxy:
         self._real, self._script, self._closed = real, script, False
         script.files.append(self)
 
-    def _abandon(self):
-        """the process died (or writing the central directory failed): what was written so far stays on disk,
-        the central directory / end record is never written"""
+    def _abandon(self, flush=False):
+        """the process died (flush=False: what sits in the user-space buffer is lost, what was flushed stays on disk)
+        or writing the central directory failed (flush=True); the end record is never written"""
         self._closed = True
         fp = getattr(self._real, "fp", None)
         if fp is not None:
+            raw = getattr(fp, "raw", None)
+            if raw is not None and not flush:
+                with contextlib.suppress(BaseException):
+                    raw.close()
             with contextlib.suppress(BaseException):
                 fp.close()
             self._real.fp = None   # ZipFile.close()/__del__ return at once when fp is None
@@ -167,7 +171,6 @@ class ZipProxy:
         self._script.inside += 1
         try:
             self._real.write(filename, arcname, *a, **kw)
-            self._real.fp.flush()
         finally:
             self._script.inside -= 1
         self._script.done()
@@ -177,7 +180,7 @@ class ZipProxy:
             return
         label = self._script.next("ZipFile.close")
         if label in FAIL:
-            self._abandon()
+            self._abandon(flush=True)
             raise OSError("injected: ZipFile.close failed")
         self._closed = True
         self._script.inside += 1
